@@ -248,7 +248,7 @@ def rand_ops(rng, T, cf, kinds):
 def validate(chk, runs, pids, label, workers=16, timeout=3000):
     path = os.path.join(common.scratch(), f'lattrace_{label}.json')
     with open(path, 'w') as f:
-        json.dump({'pids': sorted(pids), 'runs': runs}, f)
+        json.dump(common.nonull({'pids': sorted(pids), 'runs': runs}), f)
     r = run_tlc('LatticeTrace', 'LatticeTrace.cfg', workers=workers, timeout=timeout, env={'TRACE_FILE': path})
     chk.tlc(r, f'LatticeTrace: {len(runs)} recorded runs validated ({label})')
     os.remove(path)
